@@ -11,6 +11,7 @@ import (
 	"path/filepath"
 	"sort"
 	"strings"
+	"syscall"
 )
 
 const C11Pkg = "p"
@@ -22,6 +23,26 @@ type C11Gen struct {
 	Content string `json:"content"` // the file holds Content + "\n"
 }
 
+// C11Group is a filegroup of source files of the package (a data dependency of tests): its outputs in
+// plz-out/gen are hard links to the source files.
+type C11Group struct {
+	Name string   `json:"name"`
+	Srcs []string `json:"srcs"`
+}
+
+// C11Alt is the test command for one build config, when test_cmd is given as a dict.
+type C11Alt struct {
+	Config string `json:"config"`
+	Op     string `json:"op"`
+	Arg    string `json:"arg,omitempty"`
+}
+
+// C11Inv is how plz is invoked: `plz test [-c Config] [//p:all -- Args...]`.
+type C11Inv struct {
+	Args   []string `json:"args,omitempty"`
+	Config string   `json:"config,omitempty"` // "" = no -c flag (the default config, opt)
+}
+
 // C11Test is a gentest. Its binary is the concatenation of its sources.
 //
 // Test command language (the pass/fail outcome is a function of the test directory):
@@ -30,6 +51,11 @@ type C11Gen struct {
 //	binok W    pass iff the test binary contains W                            grep -qs W $TEST
 //	exists P   pass iff path P (relative to the test directory) exists        test -e P
 //	true/fail  constant
+//	argis W    pass iff the first test argument is W                          sh -c 'test "$1" = W' sh
+//	argisnot W pass iff the first test argument is not W                      sh -c 'test "$1" != W' sh
+//
+// Test arguments are appended to the command by plz: they do not change what grep -q / true / false report
+// (grep -q exits 0 at the first match and fails otherwise), they turn `test -e P` into a usage error.
 type C11Test struct {
 	Name    string   `json:"name"`
 	Srcs    []string `json:"srcs"`
@@ -38,12 +64,14 @@ type C11Test struct {
 	Op      string   `json:"op"`
 	Arg     string   `json:"arg,omitempty"`
 	Comment string   `json:"comment,omitempty"`
+	Cmds    []C11Alt `json:"cmds,omitempty"` // non-empty: test_cmd is this dict (Op/Arg are then unused)
 }
 
 type C11Spec struct {
-	Files map[string]string `json:"files"` // path relative to the package ("dd/a.txt" lies in data directory dd) -> content
-	Gens  []*C11Gen         `json:"gens"`
-	Tests []*C11Test        `json:"tests"`
+	Files  map[string]string `json:"files"` // path relative to the package ("dd/a.txt" lies in data directory dd) -> content
+	Gens   []*C11Gen         `json:"gens"`
+	Groups []*C11Group       `json:"groups,omitempty"`
+	Tests  []*C11Test        `json:"tests"`
 }
 
 func (s *C11Spec) Clone() *C11Spec {
@@ -55,13 +83,30 @@ func (s *C11Spec) Clone() *C11Spec {
 		c := *g
 		out.Gens = append(out.Gens, &c)
 	}
+	for _, g := range s.Groups {
+		c := *g
+		c.Srcs = append([]string{}, g.Srcs...)
+		out.Groups = append(out.Groups, &c)
+	}
 	for _, t := range s.Tests {
 		c := *t
 		c.Srcs = append([]string{}, t.Srcs...)
 		c.Data = append([]string{}, t.Data...)
+		if t.Cmds != nil {
+			c.Cmds = append([]C11Alt{}, t.Cmds...)
+		}
 		out.Tests = append(out.Tests, &c)
 	}
 	return out
+}
+
+func (s *C11Spec) Group(name string) *C11Group {
+	for _, g := range s.Groups {
+		if g.Name == name {
+			return g
+		}
+	}
+	return nil
 }
 
 func (s *C11Spec) Gen(name string) *C11Gen {
@@ -74,20 +119,69 @@ func (s *C11Spec) Gen(name string) *C11Gen {
 }
 
 // TestBody is the shell text of the test command proper (without the action-log prefix).
-func (t *C11Test) TestBody() string {
-	switch t.Op {
+func (t *C11Test) TestBody() string { return c11Body(t.Op, t.Arg) }
+
+func c11Body(op, arg string) string {
+	switch op {
 	case "passif":
-		return "grep -rqs " + t.Arg + " $DATA /dev/null"
+		return "grep -rqs " + arg + " $DATA /dev/null"
 	case "binok":
-		return "grep -qs " + t.Arg + " $TEST"
+		return "grep -qs " + arg + " $TEST"
 	case "exists":
-		return "test -e " + t.Arg
+		return "test -e " + arg
 	case "true":
 		return "true"
 	case "fail":
 		return "false"
+	case "argis":
+		return `sh -c 'test "$1" = ` + arg + `' sh`
+	case "argisnot":
+		return `sh -c 'test "$1" != ` + arg + `' sh`
 	}
-	panic("unknown test op " + t.Op)
+	panic("unknown test op " + op)
+}
+
+// C11DefaultConfig / C11FallbackConfig: plz's Build.Config and Build.FallbackConfig defaults (the Coq model
+// reads them off src/core/config.go through gotrans; the generated repositories do not override them).
+const C11DefaultConfig, C11FallbackConfig = "opt", "opt"
+
+// Effective mirrors BuildTarget.getCommand: the (op, arg) of the command that runs under build config cfg
+// ("" = default): the plain command, or the dict entry of cfg, else of the fallback config, else the one
+// with the highest config name.
+func (t *C11Test) Effective(cfg string) (op, arg string) {
+	if len(t.Cmds) == 0 {
+		return t.Op, t.Arg
+	}
+	if cfg == "" {
+		cfg = C11DefaultConfig
+	}
+	for _, want := range []string{cfg, C11FallbackConfig} {
+		for _, a := range t.Cmds {
+			if a.Config == want {
+				return a.Op, a.Arg
+			}
+		}
+	}
+	best := t.Cmds[0]
+	for _, a := range t.Cmds {
+		if a.Config > best.Config {
+			best = a
+		}
+	}
+	return best.Op, best.Arg
+}
+
+func (t *C11Test) cmdText(op, arg, logPath string) string {
+	return fmt.Sprintf("echo T%s >> %s && %s", t.Label(), logPath, c11Body(op, arg))
+}
+
+// AltCmd is the command text of one dict entry.
+func (t *C11Test) AltCmd(a C11Alt, logPath string) string { return t.cmdText(a.Op, a.Arg, logPath) }
+
+// EffectiveCmd is the text of the command that runs under cfg.
+func (t *C11Test) EffectiveCmd(cfg, logPath string) string {
+	op, arg := t.Effective(cfg)
+	return t.cmdText(op, arg, logPath)
 }
 
 func (t *C11Test) Label() string { return "//" + C11Pkg + ":" + t.Name }
@@ -101,7 +195,8 @@ func (t *C11Test) TestCmd(logPath string) string {
 }
 
 // RuleFields lists, in the order ruleHash(runtime=true) writes them, the parts of the runtime rule
-// stream that vary between generated targets (everything else is the same constant for all of them).
+// stream BEFORE the test part that vary between generated targets (everything else is the same constant for
+// all of them). The test part (the test command) is computed by the model from the command form.
 func (t *C11Test) RuleFields(logPath string) []string {
 	f := []string{t.Label()}
 	deps := []string{}
@@ -122,7 +217,7 @@ func (t *C11Test) RuleFields(logPath string) []string {
 			f = append(f, d)
 		}
 	}
-	return append(f, t.TestCmd(logPath))
+	return f
 }
 
 func (s *C11Spec) buildFile(logPath string) string {
@@ -132,12 +227,23 @@ func (s *C11Spec) buildFile(logPath string) string {
 			pyStr(g.Name), pyList([]string{g.Out}),
 			pyStr(fmt.Sprintf("echo //%s:%s >> %s && echo %s > $OUTS", C11Pkg, g.Name, logPath, shQuote(g.Content))))
 	}
+	for _, g := range s.Groups {
+		fmt.Fprintf(&b, "filegroup(\n    name = %s,\n    srcs = %s,\n    visibility = [\"PUBLIC\"],\n)\n\n", pyStr(g.Name), pyList(g.Srcs))
+	}
 	for _, t := range s.Tests {
 		if t.Comment != "" {
 			b.WriteString("# " + t.Comment + "\n")
 		}
+		testCmd := pyStr(t.TestCmd(logPath))
+		if len(t.Cmds) > 0 {
+			parts := []string{}
+			for _, a := range t.Cmds {
+				parts = append(parts, pyStr(a.Config)+": "+pyStr(t.AltCmd(a, logPath)))
+			}
+			testCmd = "{" + strings.Join(parts, ", ") + "}"
+		}
 		fmt.Fprintf(&b, "gentest(\n    name = %s,\n    srcs = %s,\n    outs = %s,\n    cmd = %s,\n    test_cmd = %s,\n    no_test_output = True,\n",
-			pyStr(t.Name), pyList(t.Srcs), pyList([]string{t.Out}), pyStr(t.BuildCmd(logPath)), pyStr(t.TestCmd(logPath)))
+			pyStr(t.Name), pyList(t.Srcs), pyList([]string{t.Out}), pyStr(t.BuildCmd(logPath)), testCmd)
 		if len(t.Data) > 0 {
 			fmt.Fprintf(&b, "    data = %s,\n", pyList(t.Data))
 		}
@@ -191,6 +297,11 @@ func (s *C11Spec) RuntimeFiles(t *C11Test) []C11RFile {
 	out := []C11RFile{{Role: "out", Dest: t.Out, Node: C11Node{Content: bin}}}
 	for _, d := range t.Data {
 		switch {
+		case strings.HasPrefix(d, ":") && s.Group(d[1:]) != nil:
+			// a filegroup of source files: one runtime file per source, at the source's own path
+			for _, src := range s.Group(d[1:]).Srcs {
+				out = append(out, C11RFile{Role: "data", Dest: C11Pkg + "/" + src, Node: C11Node{Content: s.Files[src]}})
+			}
 		case strings.HasPrefix(d, ":"):
 			g := s.Gen(d[1:])
 			out = append(out, C11RFile{Role: "data", Dest: C11Pkg + "/" + g.Out, Node: C11Node{Content: g.Content + "\n"}})
@@ -221,8 +332,17 @@ func TestDir(files []C11RFile) map[string]C11Node {
 	return m
 }
 
-// Expected is the outcome of running t's test command in a correctly prepared test directory.
-func (s *C11Spec) Expected(t *C11Test) bool {
+// Expected is the outcome of running t's test command in a correctly prepared test directory, without test
+// arguments and under the default config.
+func (s *C11Spec) Expected(t *C11Test) bool { return s.ExpectedInv(t, C11Inv{}) }
+
+// ExpectedInv is the outcome of the invocation inv: the effective command of inv.Config, given inv.Args.
+func (s *C11Spec) ExpectedInv(t *C11Test, inv C11Inv) bool {
+	op, arg := t.Effective(inv.Config)
+	first := ""
+	if len(inv.Args) > 0 {
+		first = inv.Args[0]
+	}
 	files := s.RuntimeFiles(t)
 	dir := TestDir(files)
 	has := func(n C11Node, w string) bool {
@@ -236,24 +356,27 @@ func (s *C11Spec) Expected(t *C11Test) bool {
 		}
 		return false
 	}
-	switch t.Op {
+	switch op {
 	case "passif":
 		for _, f := range files {
-			if f.Role == "data" && has(dir[f.Dest], t.Arg) {
+			if f.Role == "data" && has(dir[f.Dest], arg) {
 				return true
 			}
 		}
 		return false
 	case "binok":
-		return has(dir[t.Out], t.Arg)
+		return has(dir[t.Out], arg)
 	case "exists":
-		if _, ok := dir[t.Arg]; ok {
+		if len(inv.Args) > 0 {
+			return false // `test -e P a`: usage error
+		}
+		if _, ok := dir[arg]; ok {
 			return true
 		}
-		if i := strings.LastIndexByte(t.Arg, '/'); i > 0 {
-			if n, ok := dir[t.Arg[:i]]; ok && n.Dir {
+		if i := strings.LastIndexByte(arg, '/'); i > 0 {
+			if n, ok := dir[arg[:i]]; ok && n.Dir {
 				for _, e := range n.Entries {
-					if e[0] == t.Arg[i+1:] {
+					if e[0] == arg[i+1:] {
 						return true
 					}
 				}
@@ -262,13 +385,17 @@ func (s *C11Spec) Expected(t *C11Test) bool {
 		return false
 	case "true":
 		return true
+	case "argis":
+		return first == arg
+	case "argisnot":
+		return first != arg
 	}
 	return false
 }
 
 // RuntimeInputs is a canonical text of everything the property calls the test's runtime inputs: the
-// test command and the test directory (names and contents).
-func (s *C11Spec) RuntimeInputs(t *C11Test, logPath string) string {
+// EFFECTIVE test command (under build config cfg) and the test directory (names and contents).
+func (s *C11Spec) RuntimeInputs(t *C11Test, cfg, logPath string) string {
 	dir := TestDir(s.RuntimeFiles(t))
 	keys := make([]string, 0, len(dir))
 	for k := range dir {
@@ -276,7 +403,7 @@ func (s *C11Spec) RuntimeInputs(t *C11Test, logPath string) string {
 	}
 	sort.Strings(keys)
 	var b strings.Builder
-	fmt.Fprintf(&b, "cmd=%q\n", t.TestCmd(logPath))
+	fmt.Fprintf(&b, "cmd=%q\n", t.EffectiveCmd(cfg, logPath))
 	for _, k := range keys {
 		fmt.Fprintf(&b, "%s=%q %v\n", k, dir[k].Content, dir[k].Entries)
 	}
@@ -355,4 +482,74 @@ func (r *Repo) C11CacheKeys(t *C11Test) int {
 		}
 	}
 	return n
+}
+
+// ---------------------------------------------------------------------------------------------
+// Editing source files the way an editor does
+
+// C11WriteFiles brings the existing files of the package whose content differs from the spec up to date,
+// either IN PLACE (open, truncate, write: the inode - and every hard link to it, e.g. a filegroup output in
+// plz-out/gen - is kept) or by REPLACING the file (write a temporary file, rename it over the old one: a
+// new inode). New files and the BUILD file are left to Repo.Write. It returns, per rewritten file,
+// whether the inode number stayed the same.
+func (r *Repo) C11WriteFiles(s *C11Spec, replace bool) map[string]bool {
+	same := map[string]bool{}
+	for f, want := range s.Files {
+		path := filepath.Join(r.Dir, C11Pkg, f)
+		old, err := os.ReadFile(path)
+		if err != nil || string(old) == want {
+			continue
+		}
+		before := inode(path)
+		if replace {
+			tmp := path + ".c11tmp"
+			must(os.WriteFile(tmp, []byte(want), 0o644))
+			must(os.Rename(tmp, path))
+		} else {
+			fh, err := os.OpenFile(path, os.O_WRONLY|os.O_TRUNC, 0)
+			must(err)
+			_, err = fh.WriteString(want)
+			must(err)
+			must(fh.Close())
+		}
+		same[f] = before == inode(path)
+	}
+	return same
+}
+
+func inode(path string) uint64 {
+	var st syscall.Stat_t
+	if syscall.Lstat(path, &st) != nil {
+		return 0
+	}
+	return st.Ino
+}
+
+// C11XattrsWork says whether user extended attributes can be set and read back on files under dir (plz
+// keeps the runtime key of a test result, and content hashes of outputs, in user xattrs).
+func C11XattrsWork(dir string) bool {
+	path := filepath.Join(dir, ".c11-xattr-probe")
+	if os.WriteFile(path, []byte("x"), 0o644) != nil {
+		return false
+	}
+	defer os.Remove(path)
+	if syscall.Setxattr(path, "user.c11_probe", []byte("v"), 0) != nil {
+		return false
+	}
+	buf := make([]byte, 8)
+	n, err := syscall.Getxattr(path, "user.c11_probe", buf)
+	return err == nil && string(buf[:n]) == "v"
+}
+
+// C11PlzArgs is the command line of the invocation.
+func (inv C11Inv) PlzArgs() []string {
+	args := []string{"test"}
+	if inv.Config != "" {
+		args = append(args, "-c", inv.Config)
+	}
+	if len(inv.Args) > 0 {
+		args = append(args, "//"+C11Pkg+":all", "--")
+		args = append(args, inv.Args...)
+	}
+	return args
 }
